@@ -139,8 +139,10 @@ def _e2e_configs(tier):
         for existing in ('in_db_only', 'loaded', 'created_in_session'):
             for via in ('create', 'modify'):
                 if key == 'pk' and via == 'modify': continue
-                out.append(dict(key=key, existing=existing, via=via, caught=False))
-                if existing == 'in_db_only': out.append(dict(key=key, existing=existing, via=via, caught=True))
+                out.append(dict(key=key, existing=existing, via=via, caught=False, shape='flat'))
+                if existing == 'in_db_only': out.append(dict(key=key, existing=existing, via=via, caught=True, shape='flat'))
+                # the same keys, covered once more by indexes that a SUBCLASS declares (they are created after the single-column unique index)
+                if existing == 'in_db_only': out.append(dict(key=key, existing=existing, via=via, caught=False, shape='subclass indexes over the keys'))
     return out
 
 
@@ -164,6 +166,10 @@ def _e2e_case(cfg, values):
             b = orm.Optional(int)
             orm.composite_key(a, b)
             marker = orm.Optional(int)
+        if cfg['shape'] != 'flat':
+            class V(U):
+                c = orm.Optional(int)
+                orm.composite_index(c, 'name'); orm.composite_key(c, 'marker'); orm.composite_index(c, 'a')
         db.generate_mapping(create_tables=True)
         with orm.db_session:
             U(id=1, name='n1', a=1, b=1); U(id=2, name='n2', a=2, b=2)
